@@ -171,6 +171,119 @@ fn shift_all(planes: &Arc<RwLock<HashMap<u32, Plane>>>, ms: i64) {
     }
 }
 
+unsafe extern "C" {
+    fn setsockopt(fd: i32, level: i32, name: i32, val: *const core::ffi::c_void, len: u32) -> i32;
+}
+
+/// close with RST instead of FIN (SO_LINGER with a zero timeout)
+fn reset_close(s: std::net::TcpStream) {
+    use std::os::fd::AsRawFd;
+    let linger: [i32; 2] = [1, 0];
+    unsafe {
+        setsockopt(s.as_raw_fd(), 1 /* SOL_SOCKET */, 13 /* SO_LINGER */, linger.as_ptr() as *const _, 8);
+    }
+    drop(s);
+}
+
+fn accept_within(l: &std::net::TcpListener, ms: u64) -> Option<std::net::TcpStream> {
+    l.set_nonblocking(true).ok()?;
+    let t0 = std::time::Instant::now();
+    loop {
+        match l.accept() {
+            Ok((s, _)) => { s.set_nonblocking(false).ok(); return Some(s); }
+            Err(_) => {
+                if t0.elapsed().as_millis() as u64 > ms { return None; }
+                std::thread::sleep(std::time::Duration::from_millis(5));
+            }
+        }
+    }
+}
+
+/// plays a fault script against the real `connect_and_read_tcp` loop on a loopback port
+fn run_tcp(script: &str, cfg: &Cfg, table: &Arc<RwLock<HashMap<u32, Plane>>>, keep: &mut Vec<std::net::TcpStream>) -> String {
+    use std::net::TcpListener;
+    use std::time::{Duration, Instant};
+    let steps: Vec<&str> = script.split(';').filter(|x| !x.is_empty()).collect();
+    let first = TcpListener::bind("127.0.0.1:0").expect("bind");
+    let addr = first.local_addr().unwrap();
+    let mut listener: Option<TcpListener> = Some(first);
+    let mut out = String::new();
+    let mut i = 0;
+    let mut started = false;
+    let mut t_free = Instant::now();       // when the reader became free to attempt a connection
+    let mut gaps: Vec<String> = Vec::new();
+    let mut accepted = 0;
+    let mut spawn = |listener_up: bool| {
+        let mut a = make_args(cfg, "");
+        a.tcp = format!("{}", addr);
+        let _ = listener_up;
+        let planes = Planes { aircrafts: table.clone() };
+        let _detached = spawn_reader_thread(Arc::new(a), planes);
+    };
+    while i < steps.len() {
+        if steps[i] == "refuse" {
+            let mut k = 0;
+            while i < steps.len() && steps[i] == "refuse" { k += 1; i += 1; }
+            listener = None;                    // nothing listens: connects are refused
+            if !started { spawn(false); started = true; t_free = Instant::now(); }
+            // attempts happen at t_free, +5 s, ...: keep the port closed for the first k of them
+            let until = t_free + Duration::from_millis(5000 * (k as u64 - 1) + 2500);
+            let now = Instant::now();
+            if until > now { std::thread::sleep(until - now); }
+            let l = TcpListener::bind(addr).expect("re-bind");
+            listener = Some(l);
+            // the next successful accept tells how long the refusals held the reader up
+            match accept_within(listener.as_ref().unwrap(), 9000) {
+                Some(s) => {
+                    gaps.push(format!("{}:{}", k, t_free.elapsed().as_millis()));
+                    accepted += 1;
+                    // this connection belongs to the next step (or is the idle tail)
+                    if i < steps.len() {
+                        play(steps[i], s);
+                        i += 1;
+                        t_free = Instant::now();
+                    } else {
+                        keep.push(s);
+                        write!(out, "tcp accepted={} gaps={} alive=1", accepted, gaps.join(",")).unwrap();
+                        return out;
+                    }
+                }
+                None => { write!(out, "tcp accepted={} gaps={} alive=0 stalled-after-refuse", accepted, gaps.join(",")).unwrap(); return out; }
+            }
+            continue;
+        }
+        if listener.is_none() { listener = Some(TcpListener::bind(addr).expect("re-bind")); }
+        if !started { spawn(true); started = true; }
+        match accept_within(listener.as_ref().unwrap(), 9000) {
+            Some(s) => { accepted += 1; play(steps[i], s); t_free = Instant::now(); }
+            None => { write!(out, "tcp accepted={} gaps={} alive=0 stalled-at-step-{}", accepted, gaps.join(","), i).unwrap(); return out; }
+        }
+        i += 1;
+    }
+    // the reader must come back for more: that it reconnects shows it is alive and done with the last connection
+    if listener.is_none() { listener = Some(TcpListener::bind(addr).expect("re-bind")); }
+    match accept_within(listener.as_ref().unwrap(), 9000) {
+        Some(s) => { keep.push(s); write!(out, "tcp accepted={} gaps={} alive=1", accepted, gaps.join(",")).unwrap(); }
+        None => { write!(out, "tcp accepted={} gaps={} alive=0", accepted, gaps.join(",")).unwrap(); }
+    }
+    out
+}
+
+fn play(step: &str, mut s: std::net::TcpStream) {
+    let parts: Vec<&str> = step.split(':').collect();
+    match parts[0] {
+        "close" => { drop(s); }
+        "data" => {
+            let bytes = parse_hex_bytes(parts.get(1).copied().unwrap_or(""));
+            let _ = s.write_all(&bytes);
+            let _ = s.flush();
+            std::thread::sleep(std::time::Duration::from_millis(300));   // let the reader drain the socket
+            if parts.get(2).copied() == Some("reset") { reset_close(s); } else { drop(s); }
+        }
+        _ => { drop(s); }
+    }
+}
+
 /// Virtual clock: real time that passes between two ops must not age the rows (the model's clock
 /// moves with `adv` only).  Every stamp that predates the previous sync point is moved forward by
 /// the real time elapsed since then; stamps set after it keep an offset of at most one interval.
@@ -223,6 +336,7 @@ fn main() {
     let mut seg: Option<Vec<u8>> = None;
     let mut seg_no = 0u64;
     let mut last_sync = Utc::now();
+    let mut keep_streams: Vec<std::net::TcpStream> = Vec::new();
     let tmpdir = std::env::temp_dir();
     let dummy_df = DF::from_message(&[12u32, 0, 0, 0, 0, 0, 0, 0, 0, 0, 0, 0, 0, 0, 0, 0, 0, 0, 0, 0, 0, 0, 0, 0, 0, 0, 0, 0]).expect("dummy DF");
 
@@ -297,6 +411,15 @@ fn main() {
                             }
                         }
                     }
+                }
+                "tcp" => {
+                    sync_clock(&table, &mut last_sync);
+                    println!("@@TCP BEGIN");
+                    let r = run_tcp(toks.get(1).copied().unwrap_or(""), &cfg, &table, &mut keep_streams);
+                    println!("\n@@TCP END");
+                    writeln!(o, "{}", r).unwrap();
+                    // the real seconds spent waiting must not age the rows
+                    sync_clock(&table, &mut last_sync);
                 }
                 "adv" => {
                     sync_clock(&table, &mut last_sync);
